@@ -38,7 +38,7 @@ DY_LOW = [Fraction(1, 8), Fraction(1, 10), Fraction(1, 11), Fraction(1, 12), Fra
 def c08_scripts(rng, tier):
     """index-signal instance + one-hot instance, identical calls; dyadic phase grids (ratio 2^k/odd)."""
     S = []
-    n = {"quick": 20, "thorough": 200}[tier]
+    n = {"quick": 20, "thorough": 500}[tier]
     for _ in range(n):
         for deg in ["Septic", "Quintic", "Cubic", "Linear", "Nearest"]:
             for kind in ("FastFixedIn", "FastFixedOut"):
@@ -69,7 +69,7 @@ def c08_scripts(rng, tier):
     # p(n); the driver measures |out - p(instant)| in units of eps*max|p| (measured on the unchanged
     # tree: <= 12 units; bound 128).
     degs = {"Septic": 7, "Quintic": 5, "Cubic": 3, "Linear": 1}
-    for _ in range({"quick": 25, "thorough": 300}[tier]):
+    for _ in range({"quick": 25, "thorough": 600}[tier]):
         for deg, d in degs.items():
             for kind in ("FastFixedIn", "FastFixedOut"):
                 r = rng.choice(gen.RATIOS) if rng.random() < 0.7 else rng.choice(DY_LOW + [Fraction(3, 31), Fraction(5, 53)])
@@ -93,14 +93,15 @@ def c08_scripts(rng, tier):
 
 def c15_scripts(rng, tier):
     S = []
-    n = {"quick": 40, "thorough": 400}[tier]
+    n = {"quick": 40, "thorough": 1500}[tier]
     # ---- one-hot probes of the public kernels
     for _ in range(n):
         for T in (32, 64):
-            L = rng.choice([8, 16, 24, 32, 64, 128, 256])
-            F = rng.choice([1, 2, 4, 16, 128, 256])
+            L = rng.choice([8, 16, 24, 32, 64, 128, 256] if tier == "quick" else
+                           [8, 16, 24, 32, 40, 48, 56, 64, 72, 88, 104, 128, 136, 256, 512])
+            F = rng.choice([1, 2, 4, 16, 128, 256] if tier == "quick" else [1, 2, 3, 4, 5, 7, 16, 100, 128, 256, 512])
             pairs = []
-            for _p in range({"quick": 6, "thorough": 20}[tier]):
+            for _p in range({"quick": 6, "thorough": 30}[tier]):
                 pairs.append([rng.randrange(0, 40), rng.randrange(0, F), rng.randrange(0, 8)])
             pairs.append([0, 0, 0])
             pairs.append([3, F - 1, 1])
